@@ -47,10 +47,25 @@ def C(x):
         return Fr(int(x))
     if isinstance(x, (float, onp.floating)):
         f = float(x)
+        r = _FC.get(f)
+        if r is not None:
+            return r
         if math.isnan(f) or math.isinf(f):
             raise Unsupported("non-finite constant %r" % (x,))
-        return Fr(f)
+        r = Fr(f)
+        if r.denominator > 4096:
+            # reals abstraction: a float that is the rounding of a simple rational (1/3, 0.1, ...) denotes that
+            # rational; anything further than 1e-13 relative from a denominator<=10^4 rational stays exact.
+            s_ = r.limit_denominator(10000)
+            if s_ != 0 and abs(s_ - r) <= abs(r) * Fr(1, 10**13):
+                r = s_
+        if len(_FC) < 50000:
+            _FC[f] = r
+        return r
     raise TypeError(type(x))
+
+
+_FC = {}
 
 
 _RV = {}
@@ -173,6 +188,7 @@ class Stats:
     def __init__(self):
         self.feas_queries = 0
         self.feas_unknown = 0
+        self.feas_sampled = 0
         self.feas_time = 0.0
 
 
@@ -180,8 +196,13 @@ class Ctx:
     def __init__(self):
         self.mode = "generic"  # "generic": unforced ties are assumed away ; "lex": full lexicographic forking
         self.feas_timeout_ms = 2000
+        self.feas_rlimit = 3000000
         self.stats = Stats()
         self.concrete_env = None  # when set: concolic run, branches follow this float environment
+        self.use_sampling = False
+        import random as _random
+
+        self._rng = _random.Random(12345)
         self.reset_path([])
         self.pending = []
 
@@ -197,12 +218,19 @@ class Ctx:
         self.ack_keep = []
         self.notes = set()
         self.abstracted = False
+        self.strict_div = False
+        self.div_obligations = []
+        self.samples = []
         self._solver = None
         self._flushed = (0, 0, 0)
         self.nvars = 0
 
     def add_assume(self, cond, note=None):
         if cond is True:
+            return
+        if note == "denominators are non-zero" and self.strict_div:
+            # kink analysis: finiteness must be PROVED from the path condition, not assumed
+            self.div_obligations.append(cond)
             return
         if cond is False:
             raise Infeasible()
@@ -219,6 +247,7 @@ class Ctx:
         if self._solver is None:
             self._solver = z3.Solver()
             self._solver.set("timeout", self.feas_timeout_ms)
+            self._solver.set("rlimit", self.feas_rlimit)
             self._flushed = (0, 0, 0)
         a, b, c = self._flushed
         s = self._solver
@@ -231,7 +260,42 @@ class Ctx:
         self._flushed = (len(self.assume), len(self.axioms), len(self.pc))
         return s
 
+    def sample_witness(self, cond):
+        """cheap sound witness of feasibility: a concrete point (with the TRUE values of the abstracted function
+        applications) that robustly satisfies assumptions, path condition and cond.  Never used to conclude
+        infeasibility."""
+        tries = 0
+        i = 0
+        while True:
+            if i >= len(self.samples):
+                if tries >= 8:
+                    return False
+                self.samples.append(LazyEnv(self, self._rng))
+                tries += 1
+            env = self.samples[i]
+            ok = True
+            try:
+                while ok and env.na < len(self.assume):
+                    ok = robust_bool(self.assume[env.na], env) is True
+                    env.na += 1
+                while ok and env.np < len(self.pc):
+                    ok = robust_bool(self.pc[env.np], env) is True
+                    env.np += 1
+                if ok and robust_bool(cond, env) is True:
+                    return True
+            except (Unsupported, KeyError, ZeroDivisionError, OverflowError, ValueError, TypeError):
+                ok = False
+            if not ok:
+                self.samples.pop(i)
+                continue
+            i += 1
+            if i >= 4 and i >= len(self.samples):
+                return False
+
     def feasible(self, cond):
+        if self.use_sampling and self.sample_witness(cond):
+            self.stats.feas_sampled += 1
+            return True
         s = self._sync()
         t0 = time.time()
         s.push()
@@ -333,6 +397,7 @@ class Path:
         self.ack_list = list(ctx.ack_list)
         self.notes = set(ctx.notes)
         self.abstracted = ctx.abstracted
+        self.div_obligations = list(ctx.div_obligations)
         self.res = res
         self.err = err
         self.decisions = list(ctx.decisions[: ctx.pos])
@@ -503,15 +568,18 @@ V_ARCTAN = _uf1("arctan", math.atan)
 V_ARCSINH = _uf1("arcsinh", math.asinh)
 V_ARCCOSH = _uf1("arccosh", math.acosh, dom=lambda t: t > 1)
 V_ARCTANH = _uf1("arctanh", math.atanh, dom=lambda t: z3.And(t > -1, t < 1))
-V_FLOOR = _uf1("floor", math.floor, ax=lambda t, c: [c <= t, t < c + 1], transcendental=False)
-V_CEIL = _uf1("ceil", math.ceil, ax=lambda t, c: [c >= t, t > c - 1], transcendental=False)
-V_RINT = _uf1("rint", lambda x: float(onp.rint(x)), ax=lambda t, c: [c - t <= Fr(1, 2), t - c <= Fr(1, 2)], transcendental=False)
-V_TRUNC = _uf1("trunc", math.trunc, ax=lambda t, c: [c * c <= t * t], transcendental=False)
+# piecewise-constant functions: regular-point assumption = strictly inside a piece (derivative 0 there)
+V_FLOOR = _uf1("floor", math.floor, ax=lambda t, c: [c < t, t < c + 1])
+V_CEIL = _uf1("ceil", math.ceil, ax=lambda t, c: [c > t, t > c - 1])
+V_RINT = _uf1("rint", lambda x: float(onp.rint(x)), ax=lambda t, c: [c - t < Fr(1, 2), t - c < Fr(1, 2)])
+V_TRUNC = _uf1("trunc", math.trunc, ax=lambda t, c: [c * c < t * t + 1, t * c >= 0, z3.Or(c != t, t == 0)])
 
 
 def v_root(p, q, t):
     """t**(p/q) for t > 0, modelled exactly: r > 0, r**q == t**p  (real closed field)"""
     if type(t) is Fr:
+        if t == 0 and p > 0:
+            return Fr(0)
         if t <= 0:
             raise Unsupported("root of non-positive constant")
         # exact rational root if there is one, else the float value NumPy would compute
@@ -729,7 +797,10 @@ class S:
         if len(a.c) == 1 and len(b.c) == 1:
             CTX.add_assume(t_rel("!=", b.c[0], Fr(0)), "denominators are non-zero")
             return S(t_div(a.c[0], b.c[0]))
-        return a * b.recip()
+        r = a * b.recip()
+        # keep the primal coefficient syntactically identical to the plain quotient (same Ackermann keys)
+        r.c[0] = t_div(a.c[0], b.c[0])
+        return r
 
     def __rtruediv__(a, b):
         b = S.L(b)
@@ -961,7 +1032,7 @@ class S:
     def __eq__(a, b):
         b = S.L(b)
         if b is NotImplemented:
-            return False
+            return NotImplemented
         ms = a._masks(b) if CTX.mode == "lex" else [0]
         for m in ms:
             if not CTX.tie(a.co(m), b.co(m)):
@@ -969,7 +1040,8 @@ class S:
         return True
 
     def __ne__(a, b):
-        return not a.__eq__(b)
+        r = a.__eq__(b)
+        return r if r is NotImplemented else (not r)
 
     def __bool__(a):
         return a.__ne__(0)
@@ -1207,7 +1279,11 @@ def leaves(a):
         return out
     arr = onp.asarray(a)
     if arr.dtype == object:
-        return list(arr.ravel())
+        es = list(arr.ravel())
+        if any(isinstance(e, (CS, complex, onp.complexfloating)) for e in es):
+            # a complex object array: real entries (e.g. padding zeros) are complex numbers with zero imaginary part
+            es = [e if isinstance(e, (CS, complex, onp.complexfloating)) else CS.L(e) for e in es]
+        return es
     return [x for x in arr.ravel().tolist()]
 
 
@@ -1360,3 +1436,80 @@ def term_vars(ts):
         else:
             stack.extend(t.children())
     return names
+
+
+# ----------------------------------------------------------------------------------------------
+# sampling witnesses for branch feasibility
+
+
+class LazyEnv(dict):
+    """float environment: input symbols get random values on first use; Ackermann constants get the TRUE value of
+    the function they abstract (computed from their argument terms)"""
+
+    def __init__(self, ctx, rng):
+        super().__init__()
+        self.ctx = ctx
+        self.rng = rng
+        self.na = 0
+        self.np = 0
+        self.cache = {}
+
+    def __missing__(self, name):
+        if "!" in name:
+            for (c, n, args, fn) in self.ctx.ack_list:
+                if c.decl().name() == name:
+                    vals = [evalf(a, self, self.cache) for a in args]
+                    v = float(fn(*vals))
+                    if math.isnan(v) or math.isinf(v):
+                        raise ValueError("undefined")
+                    self[name] = v
+                    return v
+            raise KeyError(name)
+        r = self.rng
+        v = r.choice([1, 1, 1, -1]) * (r.randrange(4, 160) / 64.0)
+        self[name] = v
+        return v
+
+
+def robust_bool(c, env, margin=1e-6):
+    """three-valued evaluation: True / False only when the float evaluation is robust, else None"""
+    if c is True or c is False:
+        return c
+    k = c.decl().kind()
+    if k == z3.Z3_OP_TRUE:
+        return True
+    if k == z3.Z3_OP_FALSE:
+        return False
+    if k == z3.Z3_OP_NOT:
+        r = robust_bool(c.children()[0], env, margin)
+        return None if r is None else (not r)
+    if k == z3.Z3_OP_AND:
+        rs = [robust_bool(x, env, margin) for x in c.children()]
+        if any(r is False for r in rs):
+            return False
+        return True if all(r is True for r in rs) else None
+    if k == z3.Z3_OP_OR:
+        rs = [robust_bool(x, env, margin) for x in c.children()]
+        if any(r is True for r in rs):
+            return True
+        return False if all(r is False for r in rs) else None
+    if k in (z3.Z3_OP_EQ, z3.Z3_OP_DISTINCT, z3.Z3_OP_LE, z3.Z3_OP_LT, z3.Z3_OP_GE, z3.Z3_OP_GT):
+        ch = c.children()
+        if len(ch) != 2 or not z3.is_arith(ch[0]):
+            return None
+        a = _ev(ch[0], env, env.cache)
+        b = _ev(ch[1], env, env.cache)
+        if math.isnan(a) or math.isnan(b) or math.isinf(a) or math.isinf(b):
+            return None
+        m = margin * max(1.0, abs(a), abs(b))
+        far = abs(a - b) > m
+        if k == z3.Z3_OP_EQ:
+            return False if far else None
+        if k == z3.Z3_OP_DISTINCT:
+            return True if far else None
+        if not far:
+            return None
+        if k in (z3.Z3_OP_LE, z3.Z3_OP_LT):
+            return a < b
+        return a > b
+    return None
